@@ -378,7 +378,7 @@ def main_check(prop, argv):
             path = write_replay(pid, "violation", {
                 "property": pid, "kind": "property-violated-on-implementation",
                 "case": v[0], "implementation": v[1], "expected": v[2], "why": v[3],
-                "more": [list(x) for x in res.violations[1:10]],
+                "more": [[str(y)[:3000] for y in x] for x in res.violations[1:10]],
                 "rerun": "cd /verif && ./check %s --replay <this file>" % pid})
             print("VIOLATION property=%s replay=%s" % (pid, path))
             exit_code = 1
@@ -389,7 +389,7 @@ def main_check(prop, argv):
                 "broken_theorems_or_build": theorem_problems,
                 "broken_correspondence": None if m is None else
                     {"case": m[0], "implementation": m[1], "model": m[2]},
-                "more": [list(x) for x in res.mismatches[1:10]],
+                "more": [[str(y)[:3000] for y in x] for x in res.mismatches[1:10]],
                 "note": "the property oracle found no input on which the implementation violates the "
                         "property; the model/theorem tie named here no longer checks",
                 "rerun": "cd /verif && ./check %s --replay <this file>" % pid})
